@@ -30,27 +30,27 @@ PROPS["C03"] = {
         {   # three arithmetic backends; the in-package tests call Generic and (on AVX2) Vector explicitly
             "pkg": "curve", "configs": _C03_B3,
             "tests": {
-                "TestC03GroupLaw":      _c03(1600, 40000, 1, 8),
-                "TestC03ScalarMul":     _c03(800, 20000, 2, 16),
-                "TestC03MSMSmall":      _c03(1000, 24000, 2, 16),
-                "TestC03MSMLarge":      _c03(40, 1000, 1, 8),
-                "TestC03Ristretto":     _c03(300, 8000, 2, 16),
-                "TestC03ImplModels":    _c03(800, 20000, 1, 8),
-                "TestC03ImplScalarMul": _c03(600, 16000, 2, 16),
-                "TestC03ImplMSMSmall":  _c03(400, 10000, 4, 16),
-                "TestC03ImplMSMLarge":  _c03(40, 800, 2, 16),
-                "TestC03ImplRistretto": _c03(400, 8000, 1, 8),
+                "TestC03GroupLaw":      _c03(1600, 24000, 1, 8),
+                "TestC03ScalarMul":     _c03(800, 12000, 2, 16),
+                "TestC03MSMSmall":      _c03(1000, 14000, 2, 16),
+                "TestC03MSMLarge":      _c03(40, 600, 1, 8),
+                "TestC03Ristretto":     _c03(300, 5000, 2, 16),
+                "TestC03ImplModels":    _c03(800, 12000, 1, 8),
+                "TestC03ImplScalarMul": _c03(600, 10000, 2, 16),
+                "TestC03ImplMSMSmall":  _c03(400, 6000, 4, 16),
+                "TestC03ImplMSMLarge":  _c03(40, 500, 2, 16),
+                "TestC03ImplRistretto": _c03(400, 6000, 1, 8),
             },
         },
         {   # same binary with AVX2 masked: the public API now dispatches to the serial code on the assembly field
             # backend (and keeps the packed serial basepoint table); the explicit in-package calls would repeat "default"
             "pkg": "curve", "configs": ["noavx2"],
             "tests": {
-                "TestC03GroupLaw":      _c03(800, 20000, 1, 8),
-                "TestC03ScalarMul":     _c03(500, 10000, 1, 8),
-                "TestC03MSMSmall":      _c03(500, 12000, 1, 8),
-                "TestC03MSMLarge":      _c03(30, 500, 1, 8),
-                "TestC03Ristretto":     _c03(200, 4000, 1, 8),
+                "TestC03GroupLaw":      _c03(800, 12000, 1, 8),
+                "TestC03ScalarMul":     _c03(500, 6000, 1, 8),
+                "TestC03MSMSmall":      _c03(500, 7000, 1, 8),
+                "TestC03MSMLarge":      _c03(30, 300, 1, 8),
+                "TestC03Ristretto":     _c03(200, 2500, 1, 8),
             },
         },
     ],
